@@ -38,6 +38,7 @@ def run(tier='quick', seed=0, only=None, verbose=False):
     progs += families.fam_mixed_nodes(seed, n=4 if tier == 'quick' else 30)
     progs += families.fam_equal_values()
     progs += families.fam_partial_overrides()
+    progs += families.fam_zero_overrides()
     jobs = []
     for key, spec in progs:
         for builder in ('python', 'yaml', 'roundtrip', 'yaml_roundtrip'):
